@@ -132,6 +132,12 @@ def lemma_same_print(timeout_ms):
     i, s = A.spl["uid"], B.spl["uid"]
     for pa in A.run.paths:
         for pb in B.run.paths:
+            bad = [p_ for p_ in (pa, pb) if not (isinstance(p_.outcome, Return) and isinstance(p_.outcome.value, harness.Choice))]
+            if bad:
+                out["status"] = "inconclusive"
+                out["note"] = "same-print lemma: a path does not end in the choice call (%s)" % (
+                    getattr(bad[0].outcome, "reason", None) or type(bad[0].outcome).__name__)
+                continue
             ka, kb = pa.outcome.value.key, pb.outcome.value.key
             q = list(pa.conds) + list(pb.conds) + [s.term == ops.int_to_str_term(i.term),
                                                    ops.str_term(ka) != ops.str_term(kb)]
